@@ -157,7 +157,7 @@ impl Ctx<'_> {
         self.rec.step(&format!("stakes {}", list(st)), &format!("n {} total {t}", st.len()));
     }
     fn seeds(&self) -> usize {
-        if self.thorough { 6 } else { 3 }
+        if self.thorough { 6 } else { 4 }
     }
     /// two constructions, same seeds: equal committees (function of validator set and RNG only)
     fn draws<S: QuorumSamplingStrategy>(&mut self, kind: &str, desc: &str, a: &S, b: &S, rng: &mut Rng) -> Vec<Vec<usize>> {
@@ -528,16 +528,17 @@ fn main() {
     let env = Env { pk: sk.to_pk(), vpk: vsk.to_pk() };
     let mut cx = Ctx { rec: Recorder::new(), env: &env, thorough: args.thorough, class: 0 };
 
-    let ks: Vec<u64> = vec![1, 2, 3, 10, 64, 100, 200];
+    let mut ks: Vec<u64> = vec![1, 2, 3, 10, 64, 100, 200];
+    ks.push(rng.range(4, 300));
     let ns: Vec<usize> = if args.thorough { vec![1, 2, 3, 4, 5, 7, 17, 63, 64, 65, 100, 128, 199, 200, 500, 1000, 2000] } else { vec![1, 2, 3, 5, 17, 64, 100, 128, 200, 1000] };
     let shapes = ["equal1", "equalbig", "small", "heavy", "whale", "exactk", "straddle", "whale54", "pow53", "random"];
 
     for &n in &ns {
         for &k in &ks {
-            let nshapes = if args.thorough { shapes.len() } else { 4 };
-            for j in 0..nshapes {
-                let shape = if args.thorough { shapes[j] } else { shapes[(j * 3 + rng.below(10) as usize) % shapes.len()] };
-                if n > 500 && j >= 3 {
+            let reps = if args.thorough { 3 } else { 1 };
+            for j in 0..shapes.len() * reps {
+                let shape = shapes[j % shapes.len()];
+                if n > 500 && (j + rng.below(4) as usize) % 4 != 0 {
                     continue;
                 }
                 let st = stakes(shape, n, k, &mut rng);
@@ -547,7 +548,7 @@ fn main() {
             }
         }
         // raw partition sampler
-        for &bins in &[1usize, 2, 3, 4, 10, 64] {
+        for &bins in &[1usize, 2, 3, 4, 10, 64, 1 + rng.below(n as u64 + 3) as usize, 1 + rng.below(200) as usize] {
             let shape = *rng.pick(&["equal1", "small", "heavy", "whale", "random", "equalbig", "somezero"]);
             let st = stakes(shape, n, bins as u64, &mut rng);
             partition_case(&mut cx, &mut rng, shape, &st, bins);
